@@ -178,5 +178,22 @@ package schemas
 //@   shape parentURI = "y/entry.json"
 //@   ensures [C10,C20,C03,C12] a-reference-from-another-directory-is-looked-up-again: called_with("Loader.Load", 2, "y/entry.json")
 
+// The other half: ONE file reached under two spellings — named on the command line
+// as "./x/a.json" (no referrer), then referenced as "a.json" from "x/b.json" — is one
+// document. Cycle detection and type reuse go by the identity of the loaded
+// document, so the second request must be answered from the cache.
+//@ func (*CachedLoader).Load@same-file
+//@   props C10 C20
+//@   option verify-only
+//@   option noframe
+//@   option results-of GetRefType = ("file"; nil)
+//@   option after-call uri="./x/a.json"; parentURI=""
+//@   shape l = new
+//@   shape l.loader = scenarioloader()
+//@   shape l.cache = emptymap()
+//@   shape uri = "a.json"
+//@   shape parentURI = "x/b.json"
+//@   ensures [C10,C20] one-file-is-one-document-whatever-the-spelling: call_count("Loader.Load") == 1 && result1 == nil
+
 //@ func cacheKey@drops
 //@   errdrop GetRefType: a reference whose kind cannot be told keeps its own text as its key; loading it fails in the loader under the cache, which reports the error
